@@ -7,18 +7,20 @@ package main
 //
 //	engineRun, enginePoolRun, engineRunAsync, engineStartInstances, engineRunNewInstance,
 //	engineInstanceRun, engineOnErrAwaited                      control skeletons (locals are $0, $1 …)
-//	engineCtxDerive   : List (String × String × String)        every `child, cancel := context.WithCancel(parent)` of runAsync
-//	engineGoCtx       : List (String × List String)            every call made by a goroutine started in runAsync that gets
-//	                                                            a context: callee (without the receiver), its context arguments
-//	engineHandleFields: List (String × String)                 the poolAsyncRunHandle literal returned by runAsync: field ↦ local
-//	enginePoolCtxParam: String                                 runAsync's context parameter
+//	enginePoolCtxParam : Nat                                   runAsync's context parameter
+//	engineCtxDerive    : List (Nat × Nat × Nat)                every `child, cancel := context.WithCancel(parent)` of runAsync
+//	engineProviderRunCtx, engineAggregatorRunCtx,
+//	engineStartInstancesCtx : List Nat                         the context arguments of the three calls made by the
+//	                                                           goroutines runAsync starts
+//	engineHandlePoolCtx, …RunCtx, …RunCancel, …InstanceStartCtx,
+//	…InstanceStartCancel : Nat                                 the poolAsyncRunHandle literal runAsync returns: field ↦ local
 //	engineInstanceGoStmts : Nat                                number of `go` statements in instance.Run (Shoot and Report are
-//	                                                            made by the instance's own goroutine iff this is 0)
-//	engineInstanceCalls : List String                          the calls instance.Run makes, in order, receiver stripped
+//	                                                           made by the instance's own goroutine iff this is 0)
+//	engineInstanceCalls : List String                          the calls instance.Run makes through its own fields, in order
 //	engineRunLoopBound : String                                the condition of the result loop of Engine.Run
 //
-// In the three `engineCtx…`/`engineGo…`/`engineHandle…` tables the locals of runAsync are c0, c1 … in order of
-// first appearance in the function, the same numbering in all of them.
+// Contexts and cancel functions are numbers: the locals of runAsync that these facts mention, numbered in order
+// of first mention in the function (so renaming them changes nothing).
 
 import (
 	"fmt"
